@@ -161,6 +161,7 @@ def run(ctx):
     c03.check_scalar_mul(ctx, "C01.9")
     c03.check_point_add(ctx, "C01.9", "C01.9")
     c03.check_helpers(ctx, "C01.9")  # the field helpers every point operation goes through
+    c03.check_privkey_int(ctx, "C01.9")  # every valid key in [1, n-1] is accepted by sig() / pub()
 
     # ---- sig(): modes
     fsig = ctx.fn("bits.utils.sig")
